@@ -132,7 +132,16 @@ class C04(EditProp):
     coq_targets = ["props/C04.vo"]
     props_file = "props/C04.v"
     design_ref = "DESIGN.md §4 C04, §8"
-    level_text = "(see props/C04.v) field edits of the lossless paragraph: refinement to list operations, frame, re-read; tied to the code by the deb822-edit stream (edits through handles obtained before earlier edits)."
+    level_text = ("Coq theorems: (1) refinement for EVERY tree, name, value and history: doc_items after the tree edits = the list edits "
+                  "(set replaces the first field of the name in place or appends, insert appends, remove deletes all, rename changes the first "
+                  "field's name keeping position and value); (2) frame for every tree: an edit of paragraph n leaves every other child of the "
+                  "root untouched, set replaces exactly one entry or appends after terminating the last line (at most one LF added before it); "
+                  "(3) every parsed well-formed document and every paragraph built from canonical pairs is a live document (LiveDoc.lwf); "
+                  "(4) for every history with arguments in the domain, from every live document: the result is a live document whose printed "
+                  "text re-reads without error to the non-empty paragraphs the live object reports. Handle aliasing (rowan) is not a theorem: "
+                  "it is checked by the deb822-edit stream, which performs every edit through handles obtained before all earlier edits. "
+                  "PARTIAL: rename of a field whose value is empty is outside theorem (4) (Entry::new then holds an empty VALUE token); it is "
+                  "covered by (1), (2) and by the stream's re-read oracle.")
     level_note = "Model: Entry::new, Paragraph::{set,insert,remove,rename}, ensure_trailing_newline in src/lossless.rs over the rowan tree model (coq/model/Deb822Edit.v)."
     rule = ("deb822-edit: initial document (Deb822::new / FromIterator of pairs / parsed well-formed Grammar document with all layout knobs) x random "
             "history (1-12 ops) of set/insert/remove/rename on paragraphs 0-3 with values in the property's domain; deb822-edit-any: arbitrary and "
